@@ -5,8 +5,8 @@ import PraatModel.Numeric
 
 * `stepfilt <f> <n> <x1..xn> <window> <pad>`  → `ok <n> <y1..yn>`; `<f>` names the filter function handed to
   `_stepFilter`: `median` (= `medianFilter`), `first`, `last`, `center`, `max`, `min`, `sum`
-* `pitch <one> <n> <x1..xn> <w|N> <filterZero>` → `ok <max> <min> <range>` (the selected / subtracted components
-  of `getPitchMeasures`; mean, variance, std are oracle-only); `<one>` is the number 1 in the run's encoding
+* `pitch <n> <x1..xn> <w|N> <filterZero>` → `ok <max> <min> <range>` (the selected / subtracted components
+  of `getPitchMeasures`; mean, variance, std are oracle-only)
 * `detectF <thr> <n> (<t> <p>)*` → `ok <k> (<t> <ratio>)*` — F run only: numbers are binary64 bit patterns and
   the arithmetic is Lean's `Float`
 * `detectX <a> <b> <n> (<t> <p>)*` → `ok <k> <t>*` — X run only: threshold `a/b`, exact rational arithmetic
@@ -53,12 +53,9 @@ def runOpNumeric (α : Type) [LT α] [LE α] [DecidableLT α] [DecidableLE α] [
     | none => throw s!"unknown filter function {name}"
     | some f => pure ("ok " ++ outList (Numeric.stepFilter f xs w pad))
   | "pitch" => some do
-    let one ← P.time (α := α)
     let xs ← numList (α := α); let w ← P.opt P.nat; let fz ← P.bool
-    -- int(v) == 0  iff  -1 < v < 1
-    let intIsZero : α → Bool := fun v => decide (Tm.zero - one < v) && decide (v < one)
     let dummy : Numeric.PitchArith α := ⟨fun _ => Tm.zero, fun _ _ => Tm.zero, fun _ => Tm.zero⟩
-    let (_, mx, mn, rg, _, _) := Numeric.getPitchMeasures dummy intIsZero xs w fz
+    let (_, mx, mn, rg, _, _) := Numeric.getPitchMeasures dummy xs w fz
     pure s!"ok {Out.time mx} {Out.time mn} {Out.time rg}"
   | "detectF" => some do
     let thr ← P.time (α := α); let n ← P.nat
